@@ -97,7 +97,7 @@ FocusTable == [
   dstruct  |-> [p |-> <<>>, n |-> 3, m |-> 4, a |-> Structural],
   dindic   |-> [p |-> <<>>, n |-> 3, m |-> 4, a |-> {"&", "*", "!", "|", ">", "'", "dq", "%", "@", "w", "lf", ".", "sp"}],
   pstruct  |-> [p |-> <<>>, n |-> 3, m |-> 4, a |-> Structural],
-  pstruct8 |-> [p |-> <<>>, n |-> 4, m |-> 5, a |-> {"w", "sp", "lf", "-", ":", "[", "]", ","}],
+  pstruct8 |-> [p |-> <<>>, n |-> 3, m |-> 5, a |-> {"w", "sp", "lf", "-", ":", "[", "]", ","}],
   pblock   |-> [p |-> <<>>, n |-> 4, m |-> 6, a |-> {"w", "sp", "lf", "-", ":", "?"}],
   pflow    |-> [p |-> <<"[">>, n |-> 3, m |-> 4, a |-> {"w", ":", ",", "?", "]", "[", "{", "}", "lf", "sp"}],
   pbreaks  |-> [p |-> <<>>, n |-> 3, m |-> 4, a |-> {"w", "sp", "lf", "cr", "nel", "ls", "ps", ":", "-", "#"}],
@@ -115,7 +115,7 @@ FocusTable == [
   pseqlit  |-> [p |-> <<"-", "sp", "|">>, n |-> 3, m |-> 4, a |-> {"w", "sp", "lf", "1", "nel", "-", ":"}],
   pmapblock |-> [p |-> <<"w", ":", "lf">>, n |-> 3, m |-> 4, a |-> {"w", "sp", "lf", ">", "|", "-", ":", "3"}],
   panchors |-> [p |-> <<>>, n |-> 3, m |-> 4, a |-> {"&", "*", "w", "sp", "lf", ":", "-", "1", ",", "[", "]"}],
-  pcont    |-> [p |-> <<"w", "lf", "sp">>, n |-> 4, m |-> 5, a |-> {"-", ".", "w", "sp", "lf", ":", "#"}],
+  pcont    |-> [p |-> <<"w", "lf", "sp">>, n |-> 3, m |-> 5, a |-> {"-", ".", "w", "sp", "lf", ":", "#"}],
   pindic   |-> [p |-> <<>>, n |-> 3, m |-> 3, a |-> {"&", "*", "!", "|", ">", "'", "dq", "%", "@", "bt", "w", "lf", ".", ":", "sp", "-"}],
   file     |-> [p |-> <<>>, n |-> 0, m |-> 0, a |-> {}]]
 
